@@ -466,7 +466,7 @@ def _strategy(tier):
 
 CLAUSES = [
     Clause(
-        "history", _strategy, check_history, quick=120, thorough=300, shards_quick=4,
+        "history", _strategy, check_history, quick=120, thorough=2000, shards_quick=4,
         rule="history with a removal and a re-insertion/shrink, or an aggregation window that "
              "contains the same node set at two times; distinct by canonical JSON of the case",
     ),
